@@ -346,6 +346,8 @@ func roSpaces(mode int, tier string) []mc.Space {
 		{Name: "header-tails", H: roHeaderTails(mode, tail), NoLevels: true, Isolate: true,
 			Rule: fmt.Sprintf("every canonical 24-byte header followed by every string of length <= %d over the alphabet, every entry point, then EOF or an error", tail)},
 	}
+	sp = append(sp, mc.Space{Name: "large-payload-malformations", H: roMalformations(mode, bigSeeds(), mb), Bound: mb, Isolate: true,
+		Rule: "generated files whose payloads exceed the internal buffers (CR3 with a 70 KB preview and a 9 KB XMP packet, in 32- and 64-bit box forms; TIFF with 5000- and 1500-byte strings; JPEG with 60 KB XMP and 65 KB APPn segments): every structural field x its malformation menu, up to the bound simultaneously; every accepting entry point"})
 	return sp
 }
 
